@@ -19,12 +19,13 @@ var activitySets = [][]string{
 
 func shutdownScenario(c *sup.Ctx, r *rng.R) {
 	s := &life.ShutdownScenario{
-		Disk:     c.Local%2 == 1,
-		Handles:  1 + (c.Local/2)%2,
-		Shutdown: shutdownKinds[(c.Local/4)%len(shutdownKinds)],
-		Activity: activitySets[(c.Local/16)%len(activitySets)],
-		Point:    shutdownPoints[r.Intn(len(shutdownPoints))],
-		Nth:      1 + r.Intn(6),
+		Disk:         c.Local%2 == 1,
+		Handles:      1 + (c.Local/2)%2,
+		Shutdown:     shutdownKinds[(c.Local/4)%len(shutdownKinds)],
+		Activity:     activitySets[(c.Local/16)%len(activitySets)],
+		Point:        shutdownPoints[r.Intn(len(shutdownPoints))],
+		Nth:          1 + r.Intn(6),
+		StaleSibling: (c.Local/8)%3 == 2,
 	}
 	for _, a := range s.Activity {
 		if a == "mass-expiry" && c.Local%3 != 0 {
@@ -49,7 +50,7 @@ func shutdownScenario(c *sup.Ctx, r *rng.R) {
 			c.Incon(msg)
 			return
 		}
-		c.Viol([]string{"C20"}, "shutdown|"+kind, msg, map[string]any{"disk": s.Disk, "handles": s.Handles, "shutdown": s.Shutdown, "activity": s.Activity, "hook": s.Point, "nth": s.Nth})
+		c.Viol([]string{"C20"}, "shutdown|"+kind, msg, map[string]any{"disk": s.Disk, "handles": s.Handles, "shutdown": s.Shutdown, "activity": s.Activity, "hook": s.Point, "nth": s.Nth, "stale_sibling": s.StaleSibling})
 	}
 	c.Cell(fmt.Sprintf("shutdown|%s|%s|%s|%s|h=%d", s.Shutdown, strings.Join(s.Activity, "+"), s.Point, ifStr(s.Disk, "disk", "mem"), s.Handles))
 	s.Run(c.Tmp, r)
@@ -60,7 +61,7 @@ func shutdownScenario(c *sup.Ctx, r *rng.R) {
 func init() {
 	sup.Register(&sup.Check{
 		Prop: "C20", Level: "exploration",
-		Rule: "child worker processes run shutdown scenarios: {writers, feed start-up and delivery, non-stale and updateAfter view queries, documents expiring in 1-2 s, Touch-introduced expiry} in flight while {Close of every handle, Close of one of several, CloseAndDelete, DropDataStore} fires after a PRNG delay or at the n-th hit of a hook point (close.mid, event.prepost, feed.registered, view.update, txn.postcommit, cas.between, expiry.fire); every API call runs under recover() (a panic in the caller's goroutine is a witness), a panic in a background goroutine kills the worker (the supervisor records stderr and the scenario), calls that do not return within 20 s are reported with the rosmar functions blocked on locks, an unrelated bucket and (where the store survives) a fresh handle must keep working, the worker waits past every armed expiry deadline, and after the store is shut down the goroutine profile must hold no dcpFeed.run / runExpiry / updateView goroutine; also under the race detector; cell = (shutdown call, activities, hook point, bucket type, handles)",
+		Rule:        "child worker processes run shutdown scenarios: {writers, feed start-up and delivery, non-stale and updateAfter view queries, documents expiring in 1-2 s, Touch-introduced expiry} in flight while {Close of every handle, Close of one of several, CloseAndDelete, DropDataStore} fires after a PRNG delay or at the n-th hit of a hook point (close.mid, event.prepost, feed.registered, view.update, txn.postcommit, cas.between, expiry.fire); every API call runs under recover() (a panic in the caller's goroutine is a witness), a panic in a background goroutine kills the worker (the supervisor records stderr and the scenario), calls that do not return within 20 s are reported with the rosmar functions blocked on locks, an unrelated bucket and (where the store survives) a fresh handle must keep working, the worker waits past every armed expiry deadline, and after the store is shut down the goroutine profile must hold no dcpFeed.run / runExpiry / updateView goroutine; also under the race detector; cell = (shutdown call, activities, hook point, bucket type, handles)",
 		Assumptions: []string{"'never deadlocks' is decided as 'no call exceeded 20 s with goroutines waiting on rosmar locks'; shorter stalls are not reported", "schedules are sampled; hook points place the shutdown inside the named windows"},
 		Parts: []sup.Part{
 			{Name: "shutdown-scenarios", Timeout: 120 * time.Second, Count: func(t string) int { return tierN(t, 352, 5000) }, Run: func(c *sup.Ctx) {
